@@ -156,13 +156,26 @@ func (p *Parser) ParseConditionalExpression() *ConditionalExpression {
 		return stmt
 	}
 
+	expressions := 0
+
 	for p.curToken.Type != EOF {
 		stmt.Expression = p.parseExpression(precedenceValueLowset)
+		expressions++
 
 		p.nextToken()
 	}
 
+	p.checkSingleExpression(expressions)
+
 	return stmt
+}
+
+// checkSingleExpression reports juxtaposed expressions: the input must be one
+// sentence of the grammar, not several of which only the last is evaluated
+func (p *Parser) checkSingleExpression(expressions int) {
+	if expressions > 1 && len(p.errors) == 0 {
+		p.errors = append(p.errors, "Syntax error; the input contains more than one expression")
+	}
 }
 
 func (p *Parser) parseGroupedExpression() Expression {
@@ -320,11 +333,16 @@ func (p *Parser) parseCallArguments() []Expression {
 func (p *Parser) ParseUpdateExpression() *UpdateStatement {
 	stmt := &UpdateStatement{Token: p.curToken}
 
+	expressions := 0
+
 	for p.curToken.Type != EOF {
 		stmt.Expression = p.parseExpression(precedenceValueLowset)
+		expressions++
 
 		p.nextToken()
 	}
+
+	p.checkSingleExpression(expressions)
 
 	return stmt
 }
